@@ -447,3 +447,64 @@ Proof.
   exact (pmax_scale C c0 c1 cadd cmul copp cinv Cf cleb ceqb Ht H2 Hr g Hg Hs).
 Qed.
 Print Assumptions C07_parabolic_max_scale_invariant.
+
+(* ---- round 3 (consolidation): the peak of a delayed copy is UNIQUE ----
+   Any integer waveform a (not flat) and its copy b delayed by m samples, both inside the window
+   (stated pointwise; the equal-energy hypothesis of C07_corr_delayed_copy_peaks_at_lag is now
+   derived), every length N: the 'same'-mode correlation equals the energy at index
+   floor(N/2) - m and is STRICTLY smaller at every other index, so np.argmax can only return that
+   index and floor(N/2) - argmax = m. *)
+Theorem C07_corr_delayed_copy_peak_is_unique : forall (N : nat) (a b : nat -> Z) (m : Z),
+  (forall l, (l < N)%nat ->
+     b l = if inr N (Z.of_nat l - m) then a (Z.to_nat (Z.of_nat l - m)) else 0) ->
+  (forall j, (j < N)%nat -> inr N (Z.of_nat j + m) = false -> a j = 0) ->
+  0 < sumn Z 0 Z.add (fun l => a l * a l) N -> 0 <= Z.of_nat (N / 2) - m < Z.of_nat N ->
+  xcorr_same_at Z 0 Z.add Z.mul N a b (Z.to_nat (Z.of_nat (N / 2) - m))
+    = sumn Z 0 Z.add (fun l => a l * a l) N /\
+  (forall i, (i < N)%nat -> i <> Z.to_nat (Z.of_nat (N / 2) - m) ->
+     xcorr_same_at Z 0 Z.add Z.mul N a b i
+       < xcorr_same_at Z 0 Z.add Z.mul N a b (Z.to_nat (Z.of_nat (N / 2) - m))) /\
+  int_delay_of_peak N (Z.to_nat (Z.of_nat (N / 2) - m)) = m.
+Proof. exact corr_delayed_copy_unique. Qed.
+Print Assumptions C07_corr_delayed_copy_peak_is_unique.
+
+(* ---- satisfiability of the hypotheses on non-trivial inputs ---- *)
+(* a second instance of `setting` with a bin strictly between DC and Nyquist: F9, n = 4, w = powers
+   of i; the phase-level hypotheses hold for Sh = Z, phase s k = w(-(k s)) *)
+Example C07_setting_inhabited_n4 : setting F9 z9 one9 add9 mul9 opp9 inv9 conj9 4 w4.
+Proof. exact F9_setting4. Qed.
+
+Example C07_phase_hypotheses_inhabited :
+  (forall k, phase4 0 k = one9) /\
+  (forall s t k, phase4 (s + t) k = mul9 (phase4 s k) (phase4 t k)) /\
+  (forall s k, mul9 (phase4 (- s) k) (phase4 s k) = one9) /\
+  (forall k, (2 * k <= 4)%nat -> phase4 1 k = w4 (- Z.of_nat k)%Z) /\
+  (forall s, phase4 s 0 = one9).
+Proof. exact phase4_hyps. Qed.
+
+(* concrete runs over F9, n = 4, on a real signal with DC, bin-1 and Nyquist content: integer
+   tables of either sign give rolls, the table of ones the identity, a table with p_1 = i
+   followed by an integer table composes to the product table and really moves the signal, and
+   a bin-1 sinusoid with amplitude 1 + i comes out with amplitude (1 + i) i *)
+Example C07_examples_n4 :
+  real_list F9 conj9 x4 /\
+  fs4 (pint4 1) x4 = Some (roll_list F9 z9 4 1 x4) /\
+  fs4 (pint4 (-7)) x4 = Some (roll_list F9 z9 4 (-7) x4) /\
+  fs4 (pint4 0) x4 = Some x4 /\
+  (exists y z, fs4 pquart4 x4 = Some y /\ fs4 (pint4 1) y = Some z /\
+               fs4 (lmul F9 mul9 pquart4 (pint4 1)) x4 = Some z /\ y <> x4) /\
+  (forall j, (j < 4)%nat ->
+     ff4 (fun k => nth k pquart4 z9)
+         (fun i => add9 (mul9 (A1, A1) (w4 (Z.of_nat i * 1))) (mul9 (conj9 (A1, A1)) (w4 (- (Z.of_nat i * 1))))) j
+     = add9 (mul9 (mul9 (A1, A1) i9) (w4 (Z.of_nat j * 1)))
+            (mul9 (conj9 (mul9 (A1, A1) i9)) (w4 (- (Z.of_nat j * 1))))).
+Proof. exact F9_examples4. Qed.
+
+(* delayed copy: hypotheses of C07_corr_delayed_copy_peak_is_unique on a length-7 (= 3 mod 4)
+   asymmetric pulse delayed by 2, and the resulting correlation; parabola / scale hypotheses over Q
+   are exercised by the run instance (Run.v op 2) *)
+Example C07_example_delayed_copy :
+  xcorr_same Z 0 Z.add Z.mul [0;2;-5;9;0;0;0] [0;0;0;2;-5;9;0] = [-55; 110; -55; 18; 0; 0; 0] /\
+  argmax Z Z.leb (xcorr_same Z 0 Z.add Z.mul [0;2;-5;9;0;0;0] [0;0;0;2;-5;9;0]) = Some 1%nat /\
+  int_delay_of_peak 7 1 = 2 /\ 2 * 2 + (-5) * (-5) + 9 * 9 = 110.
+Proof. vm_compute. repeat split. Qed.
